@@ -590,7 +590,7 @@ pub fn run(cfg: &RunCfg) -> Report {
     let mut rep = Report::new(
         "C09",
         "fault_enumeration",
-        "level contents (0-6 orders of all types, both id formats, boundary values, optionally after a match) serialized with snapshot_to_json; for each content (0-6 orders) EVERY proper prefix, EVERY single-byte substitution (bit flip, digit +-1, palette) and deletion at every offset, insertion of each palette byte at every offset, a catalogue of structural edits on the parsed JSON (version, checksum case/length, price, each aggregate, drop/duplicate/swap orders, every field of every order, type tag), pairs of faults and structural-edit+checksum-shortening pairs; plus a few large packages (30-64 orders, 8-16 KiB; and 520-780 orders, 100-150 KiB) with the same faults at every offset near a 512-byte (8192-byte) boundary and at both ends; each tampered text goes through from_snapshot_json, from_snapshot_package(serde_json::from_str) and from_json->validate/into_snapshot. Oracle: Err, or Ok only if the tampered package re-serializes byte-identically to the original (i.e. it is semantically the same package) and the restored content equals the snapshotted level. Non-trivial = fault after which the text still parses as JSON but to a different value (content, version or checksum changed); counted per (content, fault).",
+        "level contents (0-6 orders of all types, both id formats, boundary values, optionally after a match) serialized with snapshot_to_json; for each content (0-6 orders) EVERY proper prefix, EVERY single-byte substitution (bit flip, digit +-1, palette) and deletion at every offset, insertion of each palette byte at every offset, a catalogue of structural edits on the parsed JSON (version, checksum case/length, price, each aggregate, drop/duplicate/swap orders, every field of every order, type tag), pairs of faults and structural-edit+checksum-shortening pairs; plus a few large packages (30-64 orders, 8-16 KiB; and 520-780 orders, 100-150 KiB) with the same faults at every offset near a 512-byte (8192-byte) boundary and at both ends; each tampered text goes through from_snapshot_json, from_snapshot_package(serde_json::from_str) and from_json->validate/into_snapshot. Oracle: Err, or Ok only if the tampered package re-serializes byte-identically to the original (i.e. it is semantically the same package) and the restored content equals the snapshotted level. Since rounds 4-5: coordinated text-level edits - every re-split of the digits of two adjacent numeric fields; wrapping (the original body or package kept under unknown / duplicate / nested keys around an edited snapshot); unwrapped texts (an edited body alone, with half an envelope, spliced into the envelope). Non-trivial = fault after which the text still parses as JSON but to a different value (content, version or checksum changed); counted per (content, fault).",
     );
     rep.assumptions = vec![
         "SHA-256 collision resistance".into(),
